@@ -168,13 +168,16 @@ def run_C18(ctx):
         plan = [("RetainFinite", finite_cfgs([2, 3, 4], 3), 0, 1, one, None, None),
                 ("RetainValid", valid_cfgs([2], [0, 3], 8), 3, 0, one, None, None),
                 ("RetainValidTTL3", valid_cfgs([3], [1], 4), 5, 0, one, None, None),
+                # a rejected Put (ID check) still runs the collection that is due
+                ("RetainValidRejected", valid_cfgs([2], [1, 2], 3), 4, 1, one, None, None),
                 # deep enough for a collection whose expired run wraps around the end of an 8-slot ring (18 operations)
                 ("RetainValidDeep", [dict(kind="valid", n=0, auto=False, ttl=2, gci=0, maxputs=12)], 4, 0, one, None, None)]
     else:
         plan = [("RetainFinite", finite_cfgs([2, 3, 4, 5], 4), 0, 1, two, None, None),
                 ("RetainValid", valid_cfgs([2, 3], [0, 1, 3], 9), 4, 0, one, None, None),
                 ("RetainValidDeep", [dict(kind="valid", n=0, auto=a, ttl=2, gci=g, maxputs=13) for a in (False, True) for g in (0, 3)], 5, 0, one, None, None),
-                ("RetainValidSim", valid_cfgs([3, 5], [0, 2, 7], 40), 60, 0, one, "num=60", 80)]
+                ("RetainValidRejected", valid_cfgs([2, 3], [1, 2], 4), 5, 1, one, None, None),
+                ("RetainValidSim", valid_cfgs([3, 5], [0, 2, 7], 40), 60, 1, one, "num=60", 80)]
     for name, cfgs, max_now, max_bad, tps, sim, depth in plan:
         r = tlc_replay(ctx, name, cfgs, max_now=max_now, max_bad=max_bad, put_topics=tps, simulate=sim, depth=depth, timeout=3000,
                        sub_topics=Raw('{{""}}'))
